@@ -389,6 +389,64 @@ def run(cx):
         law.append((sn, sibcomp.random_script(rng, schs[sn], 25 if cx.tier == "quick" else rng.choice([25, 60]), nids=12,
                                                prefill=rng.choice([0, 2, 5, 8]), law=True)))
     law_scripts(cx, schs, law, present=present)
+    rng = cx.sub_rng("emptied")
+    ep = []
+    for sn in ("S1", "S2", "S3"):
+        ep += [(sn, ops) for ops in emptied_parent_scripts(rng, schs[sn], cx.n(120, 1500))]
+    law_scripts(cx, schs, ep, kind="law-emptied-parent", present=present)
+
+
+def emptied_parent_scripts(rng, sch, n):
+    """Directed family (law mode): a parent gets >= 4 children (so its children hash table exists), is emptied again by
+    unlink / unlink-siblings / free in some order, and then receives whole parent-less sibling lists in ONE insert
+    (lyd_move_nodes_at_once / lyd_move_nodes_by_schema); afterwards searches, sorted inserts and value changes use the table."""
+    out = []
+    conts = [e for e in sch.ents if e["parent"] is None and e["kind"] == "c"]
+    for _ in range(n):
+        e = rng.choice(conts)
+        ch = [x for x in sch.children(e["sid"]) if x["kind"] != "key"]
+        if not ch:
+            continue
+        ops = [sibcomp.op_new(1, None, sch.qname(e), b"")]
+        ids, single = [], set()
+        for i in range(2, 2 + rng.randint(4, 8)):
+            x = rng.choice(ch)
+            if x["kind"] in ("lf", "c", "pc"):
+                if x["sid"] in single:
+                    continue
+                single.add(x["sid"])
+            ops.append(sibcomp.op_new(i, 1, sch.qname(x), sibcomp.gen_value(rng, x["kt"], bad=0)))
+            ids.append(i)
+        mode = rng.random()
+        if mode < 0.5:
+            # everything leaves in one piece
+            ops.append("find,2,%s,%s" % (sch.qname(ch[0]), hexs(b"1")))
+            ops.append("unlinksibs,%d" % 2)         # ids[0] need not be the first sibling: the tail after it
+            for i in ids:
+                if rng.random() < 0.5:
+                    ops.append("unlink,%d" % i)
+        else:
+            order = ids[:]
+            rng.shuffle(order)
+            for i in order:
+                ops.append(("free,%d" if rng.random() < 0.25 else "unlink,%d") % i)
+        # chain what is parent-less now, then move the chains in
+        loose = ids[:]
+        rng.shuffle(loose)
+        for a in loose[1:]:
+            if rng.random() < 0.7:
+                ops.append("ins_sibling,%d,%d" % (a, loose[0]))
+        for a in rng.sample(loose, min(len(loose), 3)) + ids[:2]:
+            ops.append("ins_child,%d,1" % a)
+        # use the table
+        for i in range(20, 20 + rng.randint(2, 5)):
+            x = rng.choice(ch)
+            ops.append(sibcomp.op_new(i, 1, sch.qname(x), sibcomp.gen_value(rng, x["kt"], bad=0)))
+        for _ in range(3):
+            x = rng.choice(ch)
+            ops.append("find,20,%s,%s" % (sch.qname(x), hexs(sibcomp.gen_value(rng, x["kt"], bad=0))))
+        out.append(ops)
+    return out
 
 
 def replay(cx, payload):
